@@ -22,6 +22,7 @@ import (
 
 	"github.com/ipfs/boxo/blockservice"
 	"github.com/ipfs/boxo/blockstore"
+	"github.com/ipfs/boxo/exchange"
 	offline "github.com/ipfs/boxo/exchange/offline"
 	bsfetcher "github.com/ipfs/boxo/fetcher/impl/blockservice"
 	"github.com/ipfs/boxo/ipld/merkledag"
@@ -29,6 +30,7 @@ import (
 	uio "github.com/ipfs/boxo/ipld/unixfs/io"
 	"github.com/ipfs/boxo/path"
 	"github.com/ipfs/boxo/path/resolver"
+	blocks "github.com/ipfs/go-block-format"
 	"github.com/ipfs/go-cid"
 	ds "github.com/ipfs/go-datastore"
 	dssync "github.com/ipfs/go-datastore/sync"
@@ -100,9 +102,18 @@ type PathSpec struct {
 }
 
 type Case struct {
-	CidV1 bool       `json:"cid_v1"`
-	Root  *Node      `json:"root"`
-	Paths []PathSpec `json:"paths"`
+	CidV1 bool `json:"cid_v1"`
+	// Source is the kind of block source behind the resolver's block service:
+	//   ""            plain in-memory map blockstore + offline exchange (ignores contexts)
+	//   "strict-bs"   all blocks local, but the blockstore refuses to work on a context that is
+	//                 already done (as context-aware datastores do)
+	//   "strict-exch" nothing local: every block comes through a session exchange that refuses
+	//                 to work once the call's or the session's context is done (as bitswap
+	//                 does); the local cache blockstore is context-strict too
+	// The caller's context stays alive for the whole case, so none of this may change any result.
+	Source string     `json:"source,omitempty"`
+	Root   *Node      `json:"root"`
+	Paths  []PathSpec `json:"paths"`
 }
 
 // ---------------------------------------------------------------------------
@@ -245,6 +256,7 @@ func genPath(t *rapid.T, root *Node) PathSpec {
 
 func gen(t *rapid.T) Case {
 	c := Case{CidV1: rapid.Bool().Draw(t, "cidv1")}
+	c.Source = rapid.SampledFrom([]string{"", "strict-bs", "strict-bs", "strict-exch", "strict-exch"}).Draw(t, "source")
 	budget := kit.Scale(7, 12)
 	// the root is always a directory
 	c.Root = genNode(t, 0, &budget)
@@ -396,6 +408,105 @@ func (b *builder) build(n *Node) (format.Node, *built, error) {
 }
 
 // ---------------------------------------------------------------------------
+// context-strict block sources
+//
+// Every blockstore / exchange method takes a context and real implementations (bitswap
+// sessions, context-aware datastores) return ctx.Err() once it is done. The in-memory map
+// datastore never looks at it, which would hide a resolver that keeps using a session whose
+// context it has already cancelled while the caller's context is still alive.
+
+type strictBS struct {
+	blockstore.Blockstore
+}
+
+func (s strictBS) Has(ctx context.Context, c cid.Cid) (bool, error) {
+	if err := ctx.Err(); err != nil {
+		return false, err
+	}
+	return s.Blockstore.Has(ctx, c)
+}
+
+func (s strictBS) Get(ctx context.Context, c cid.Cid) (blocks.Block, error) {
+	if err := ctx.Err(); err != nil {
+		return nil, err
+	}
+	return s.Blockstore.Get(ctx, c)
+}
+
+func (s strictBS) GetSize(ctx context.Context, c cid.Cid) (int, error) {
+	if err := ctx.Err(); err != nil {
+		return 0, err
+	}
+	return s.Blockstore.GetSize(ctx, c)
+}
+
+func (s strictBS) Put(ctx context.Context, b blocks.Block) error {
+	if err := ctx.Err(); err != nil {
+		return err
+	}
+	return s.Blockstore.Put(ctx, b)
+}
+
+func (s strictBS) PutMany(ctx context.Context, bs []blocks.Block) error {
+	if err := ctx.Err(); err != nil {
+		return err
+	}
+	return s.Blockstore.PutMany(ctx, bs)
+}
+
+// strictFetcher serves blocks of a "remote" blockstore as long as the context of the call
+// and (for sessions) the context the session was created with are alive.
+type strictFetcher struct {
+	remote blockstore.Blockstore
+	sesctx context.Context // nil: not a session
+}
+
+func (f *strictFetcher) alive(ctx context.Context) error {
+	if err := ctx.Err(); err != nil {
+		return err
+	}
+	if f.sesctx != nil {
+		return f.sesctx.Err()
+	}
+	return nil
+}
+
+func (f *strictFetcher) GetBlock(ctx context.Context, c cid.Cid) (blocks.Block, error) {
+	if err := f.alive(ctx); err != nil {
+		return nil, err
+	}
+	return f.remote.Get(ctx, c)
+}
+
+func (f *strictFetcher) GetBlocks(ctx context.Context, cs []cid.Cid) (<-chan blocks.Block, error) {
+	out := make(chan blocks.Block, len(cs))
+	defer close(out)
+	if err := f.alive(ctx); err != nil {
+		return out, err
+	}
+	for _, c := range cs {
+		if b, err := f.remote.Get(ctx, c); err == nil {
+			out <- b
+		}
+	}
+	return out, nil
+}
+
+type strictExchange struct {
+	strictFetcher
+}
+
+func (e *strictExchange) NotifyNewBlocks(ctx context.Context, _ ...blocks.Block) error {
+	return ctx.Err()
+}
+func (e *strictExchange) Close() error { return nil }
+func (e *strictExchange) NewSession(ctx context.Context) exchange.Fetcher {
+	return &strictFetcher{remote: e.remote, sesctx: ctx}
+}
+
+var _ exchange.SessionExchange = (*strictExchange)(nil)
+
+// ---------------------------------------------------------------------------
 // run
 
 func run(c Case) kit.Result {
@@ -405,9 +516,24 @@ func run(c Case) kit.Result {
 	ctx, cancel := context.WithTimeout(context.Background(), 5*time.Minute)
 	defer cancel()
 
+	// the tree is built through a plain block service over the map blockstore `bs`; the
+	// resolver reads it through the block source the case asks for
 	bs := blockstore.NewBlockstore(dssync.MutexWrap(ds.NewMapDatastore()))
-	bsrv := blockservice.New(bs, offline.Exchange(bs))
-	b := &builder{ctx: ctx, dserv: merkledag.NewDAGService(bsrv), v1: c.CidV1}
+	buildSrv := blockservice.New(bs, offline.Exchange(bs))
+	var bsrv blockservice.BlockService
+	switch c.Source {
+	case "":
+		bsrv = buildSrv
+	case "strict-bs":
+		sbs := strictBS{bs}
+		bsrv = blockservice.New(sbs, offline.Exchange(sbs))
+	case "strict-exch":
+		local := strictBS{blockstore.NewBlockstore(dssync.MutexWrap(ds.NewMapDatastore()))}
+		bsrv = blockservice.New(local, &strictExchange{strictFetcher{remote: bs}})
+	default:
+		return kit.Fail("malformed case: block source %q", c.Source)
+	}
+	b := &builder{ctx: ctx, dserv: merkledag.NewDAGService(buildSrv), v1: c.CidV1}
 	_, root, err := b.build(c.Root)
 	if err != nil {
 		// tree construction is the generator's business, not the property's
@@ -578,6 +704,14 @@ func run(c Case) kit.Result {
 	}
 	walk(root, 1)
 	cls := []string{fmt.Sprintf("dirdepth:%d", depth)}
+	if c.Source == "" {
+		cls = append(cls, "source:plain")
+	} else {
+		cls = append(cls, "source:"+c.Source)
+		if nDeep > 0 {
+			cls = append(cls, "multilevel-hamt+"+c.Source)
+		}
+	}
 	if nHamtDirs > 0 && nBasicDirs > 0 {
 		cls = append(cls, "mixed-dirs")
 	}
@@ -622,12 +756,12 @@ func sample(c Case) any {
 		return d, e
 	}
 	d, e := count(c.Root)
-	return map[string]any{"cid_v1": c.CidV1, "root_kind": c.Root.Kind, "root_fanout": c.Root.Width, "dirs": d, "entries": e, "paths": c.Paths}
+	return map[string]any{"cid_v1": c.CidV1, "source": c.Source, "root_kind": c.Root.Kind, "root_fanout": c.Root.Width, "dirs": d, "entries": e, "paths": c.Paths}
 }
 
 var spec = kit.Spec[Case]{
 	Prop: "C33", Name: "main",
-	Rule: "random UnixFS tree (dir depth <= 4; basic, HAMT fanout 8..256, MaxLinks-converted dynamic dirs; 0..400 entries per dir; raw/file/multi-chunk/symlink leaves; CIDv0 or v1) built into an offline block service, 1-8 paths per tree (existing, or broken at any position by an absent name incl. near-miss names, with optional trailing segments) resolved by the gateway's resolver wiring; non-trivial = a resolved path crosses a HAMT directory with >= 2 shard levels",
+	Rule:  "random UnixFS tree (dir depth <= 4; basic, HAMT fanout 8..256, MaxLinks-converted dynamic dirs; 0..400 entries per dir; raw/file/multi-chunk/symlink leaves; CIDv0 or v1) built into an in-memory block service and read back through a plain, a context-strict local, or a context-strict remote (session exchange) block source, 1-8 paths per tree (existing, or broken at any position by an absent name incl. near-miss names, with optional trailing segments) resolved by the gateway's resolver wiring; non-trivial = a resolved path crosses a HAMT directory with >= 2 shard levels",
 	Quick: 1000, Thorough: 6000,
 	Gen: gen, Run: run, Sample: sample,
 }
